@@ -775,10 +775,16 @@ fn dump(tcx: TyCtxt<'_>, out_dir: &str, kind_tag: &str) {
             let generic = tcx.generics_of(did).requires_monomorphization(tcx);
             if !generic {
                 let val = if matches!(kind, DefKind::Static { .. }) {
-                    tcx.eval_static_initializer(did.to_def_id())
-                        .ok()
-                        .map(|_a| None::<ConstValue>)
-                        .unwrap_or(None)
+                    // the evaluated initializer of a (non-mutable, pointer-free) static, read like
+                    // a constant of the same type: lookup tables are often statics
+                    tcx.eval_static_initializer(did.to_def_id()).ok().and_then(|a| {
+                        if a.inner().provenance().ptrs().is_empty() {
+                            let id = tcx.reserve_and_set_memory_alloc(a);
+                            Some(ConstValue::Indirect { alloc_id: id, offset: rustc_abi::Size::ZERO })
+                        } else {
+                            None
+                        }
+                    })
                 } else {
                     tcx.const_eval_poly(did.to_def_id()).ok()
                 };
